@@ -357,14 +357,14 @@ def suiteOf : String → Option Suite
   | "ed" => some ⟨true⟩ | "g1" => some ⟨false⟩ | "g2" => some ⟨false⟩ | _ => none
 
 /-- `hs role=… suite=… tlsv=… op=… them=… ncerts=… der=… signedby=… time=… uris=… cn=… sig=…
-nonce=… id=… via=…`: one handshake of a deviating peer with the honest node, in either role.  The
+nonce=… id=… via=… live=…`: one handshake of a deviating peer with the honest node, in either role.  The
 answer is `hs=<ok|fail> disp=<label of the key attached to the dispatched message|->`. -/
 def step (s : State) (toks : List String) : State × String :=
   match toks with
   | "hs" :: rest =>
     let r : Option String := do
       let m ← kv rest
-      if m.length ≠ 15 then none
+      if m.length ≠ 16 then none
       let role ← get m "role"
       let suite ← (← get m "suite") |> suiteOf
       let tlsv ← get m "tlsv"
@@ -382,6 +382,11 @@ def step (s : State) (toks : List String) : State × String :=
       let themT ← get m "them"
       let via ← get m "via"
       if via ≠ "key" ∧ via ≠ "relay" then none
+      -- `live=<k>`: while the handshake runs, the honest holder of key k has a connection of
+      -- its own with the honest node; nothing in the accept path may depend on that
+      let live ← get m "live"
+      if live ≠ "none" ∧ (live = "h" ∨ (keyOf live).isNone) then none
+      if role = "dial" ∧ live ≠ "none" then none
       let (parses, count) ← (match der with
         | "ok" => some (true, 1) | "bad" => some (false, 0) | "two" => some (true, 2) | _ => none)
       let tls : TlsKey := 10 + op
